@@ -69,6 +69,19 @@ def all_rows():
     return rows, unref
 
 
+def rows_for_harness():
+    """rows for input generation and oracles: from the source when it has the expected shape, else (the translator rejects
+    the source, the proofs over the generated tables are already reported broken) the registered names as the running
+    implementation has them, so that a failing input can still be searched for"""
+    try:
+        return all_rows()
+    except Exception:  # noqa
+        from .. import vlib
+        t = vlib.run_impl('run_tables.py', {})
+        rows = [(fam, key, '', key.endswith('_nocancel'), '') for fam in FAMILIES for key in t['families'].get(fam, [])]
+        return rows, {}
+
+
 def update_order():
     """the order in which TracesParser.__init__ merges the family dicts (self.handlers.update(x_handlers))"""
     tree, _ = read_module('pykdebugparser/traces_parser.py')
